@@ -138,31 +138,7 @@ def run(rep: Report, tier: str) -> None:
     dag = P.cls(DAG)
 
     # ---- R12.1 -----------------------------------------------------------------------------------------
-    nfields = 0
-    for name, nc in sorted(N.items()):
-        if name == "AST" or not nc.node_fields:
-            continue
-        m, visited = handler_visits(P, dag, name)
-        for fld in sorted(nc.node_fields):
-            nfields += 1
-            key = f"{name}.{fld}"
-            rep.instance("R12.1", key, nontrivial=True, sample={"node": name, "field": fld, "handler": m.qualname if m else None,
-                                                               "visited": fld in visited} if name in ("BinOp", "JoinOp", "Aggregation") else None)
-            if fld in visited:
-                continue
-            if (name, fld) in SKIPPED_FIELDS:
-                rep.exemption("R12.1", key, SKIPPED_FIELDS[(name, fld)])
-                continue
-            where = m.module.rel if m else dag.module.rel
-            line = m.node.lineno if m else dag.node.lineno
-            rep.add(Finding("R12.1", f"R12.1/{key}", where, line, m.qualname if m else DAG,
-                            f"AST field {key} ({nc.fields[fld]}) can hold an operand expression but the dependency analysis "
-                            f"{'handler ' + m.qualname + ' never visits it' if m else 'has no visit_' + name + ' handler'}: a dataset used there "
-                            f"creates no dependency edge, so the statement may run before its producer"))
-    rep.floor("node-bearing AST fields", nfields, 45)
-    for (cn, fl), _ in SKIPPED_FIELDS.items():
-        if cn not in N or fl not in N[cn].fields:
-            rep.note(f"R12.1 exemption refers to a field that no longer exists: {cn}.{fl}")
+    nfields = handler_field_matrix(P, rep, "R12.1")
 
     traversal_on_every_path(P, rep, "R12.1")
     alias_after_operand(P, rep, "R12.1")
@@ -643,7 +619,7 @@ def traversal_on_every_path(P: Program, rep: Report, rule: str, only_nodes: Opti
                                     f"producer's table was released)", describe_path(p)))
     for k in used_guards:
         rep.exemption(rule, "/".join(k), TRAVERSAL_GUARDS[k])
-    rep.floor(f"{rule} handler fields", n, 3 if only_nodes else 12)
+    rep.floor(f"{rule} handler fields", n, min(3, len(only_nodes)) if only_nodes else 12)
 
 
 
@@ -729,3 +705,37 @@ def udo_body_copied(P: Program, rep: Report, rule: str) -> None:
                             f"`{src(c)[:80]}` can evaluate the STORED body of the user-defined operator instead of a deep copy: evaluation writes the call's arguments into the tree, "
                             f"so a second call from another statement computes with the first call's component / dataset names and the result depends on statement order", bad))
     rep.floor(f"{rule} evaluations of a stored operator body", n, 1)
+
+
+def handler_field_matrix(P: Program, rep: Report, rule: str, only_nodes: Optional[Set[str]] = None, floor: int = 45) -> int:
+    """AST-node x DAGAnalyzer-handler matrix: every field of a node class that can hold an operand expression is visited by the handler
+    the dependency analysis uses for that class (its own or the inherited ASTTemplate traversal).  Shared with C06 (analytic nodes) and
+    C13 (all nodes: an operand that creates no edge is not kept for its reader)."""
+    N = e7.node_classes(P)
+    dag = P.cls(DAG)
+    nfields = 0
+    for name, nc in sorted(N.items()):
+        if name == "AST" or not nc.node_fields or (only_nodes is not None and name not in only_nodes):
+            continue
+        m, visited = handler_visits(P, dag, name)
+        for fld in sorted(nc.node_fields):
+            nfields += 1
+            key = f"{name}.{fld}"
+            rep.instance(rule, key, nontrivial=True, sample={"node": name, "field": fld, "handler": m.qualname if m else None,
+                                                               "visited": fld in visited} if name in ("BinOp", "JoinOp", "Aggregation") else None)
+            if fld in visited:
+                continue
+            if (name, fld) in SKIPPED_FIELDS:
+                rep.exemption(rule, key, SKIPPED_FIELDS[(name, fld)])
+                continue
+            where = m.module.rel if m else dag.module.rel
+            line = m.node.lineno if m else dag.node.lineno
+            rep.add(Finding(rule, f"{rule}/{key}", where, line, m.qualname if m else DAG,
+                            f"AST field {key} ({nc.fields[fld]}) can hold an operand expression but the dependency analysis "
+                            f"{'handler ' + m.qualname + ' never visits it' if m else 'has no visit_' + name + ' handler'}: a dataset used there "
+                            f"creates no dependency edge, so the statement may run before its producer"))
+    rep.floor(f"{rule} node-bearing AST fields", nfields, floor)
+    for (cn, fl), _ in SKIPPED_FIELDS.items():
+        if cn not in N or fl not in N[cn].fields:
+            rep.note(f"{rule} exemption refers to a field that no longer exists: {cn}.{fl}")
+    return nfields
